@@ -132,14 +132,14 @@ def validate_events(module, events, constants=None, shards=None, scratch=None, t
     (overflow etc.) is isolated by bisection and reported under stats['inconclusive'].
     """
     if not events:
-        return {}, {"states": 0, "transitions": 0, "validated": 0, "inconclusive": [], "wall": 0.0}
+        return {}, {"states": 0, "transitions": 0, "validated": 0, "inconclusive": [], "wall": 0.0, "skipped": {}}
     shards = shards or min(NCPU, max(1, len(events) // 40))
     scratch = scratch or tempfile.mkdtemp(prefix="trace_")
     os.makedirs(scratch, exist_ok=True)
     chunks = [events[i::shards] for i in range(shards)]
     chunks = [c for c in chunks if c]
     verdicts = {}
-    stats = {"states": 0, "transitions": 0, "validated": 0, "inconclusive": [], "wall": 0.0}
+    stats = {"states": 0, "transitions": 0, "validated": 0, "inconclusive": [], "wall": 0.0, "skipped": {}}
     t0 = time.time()
 
     def one(idx_chunk):
@@ -153,6 +153,8 @@ def validate_events(module, events, constants=None, shards=None, scratch=None, t
             stats["transitions"] += st["transitions"]
             stats["validated"] += st["validated"]
             stats["inconclusive"] += st["inconclusive"]
+            for k, v in st.get("skipped", {}).items():
+                stats["skipped"][k] = stats["skipped"].get(k, 0) + v
     stats["wall"] = time.time() - t0
     shutil.rmtree(scratch, ignore_errors=True)
     return verdicts, stats
@@ -176,11 +178,15 @@ def _validate_chunk(module, chunk, constants, scratch, tag, timeout, header, hea
     _write_cfg(cfg, constants)
     r = run(os.path.join("trace", module), cfg=cfg, env={"TRACE_FILE": tf}, workers=1,
             timeout=timeout, heap=heap)
-    st = {"states": r.distinct, "transitions": r.generated, "validated": 0, "inconclusive": []}
+    st = {"states": r.distinct, "transitions": r.generated, "validated": 0, "inconclusive": [], "skipped": {}}
     verdicts = {}
     for v in r.printed():
         if isinstance(v, dict) and "id" in v and "fail" in v:
-            verdicts.setdefault(v["id"], []).extend(v["fail"] if isinstance(v["fail"], list) else [v["fail"]])
+            fl = v["fail"] if isinstance(v["fail"], list) else [v["fail"]]
+            if fl:
+                verdicts.setdefault(v["id"], []).extend(fl)
+            for sk in (v.get("skip") or []):
+                st["skipped"][sk] = st["skipped"].get(sk, 0) + 1
     done = max(r.distinct - 1, 0)
     if r.error is None and r.rc == 0 and done == len(chunk):
         st["validated"] = len(chunk)
@@ -204,6 +210,8 @@ def _validate_chunk(module, chunk, constants, scratch, tag, timeout, header, hea
         for k in ("states", "transitions", "validated"):
             st[k] += st2[k]
         st["inconclusive"] += st2["inconclusive"]
+        for k, v in st2.get("skipped", {}).items():
+            st["skipped"][k] = st["skipped"].get(k, 0) + v
     return good_verdicts, st
 
 
